@@ -85,6 +85,8 @@ def gen_cases(tier, seed):
     combos.append(dict(k=4, therm=False, out="file", pre=["out.h5", "out-1.h5"], pause="off"))
     combos.append(dict(k=2, therm=False, out="file", pre=["out.h5.tmp"], pause="off"))
     combos.append(dict(k=2, therm=False, out="file", pre=["out.h5", "out.h5.tmp", "out-1.h5.tmp"], pause="off"))
+    combos.append(dict(k=2, therm=False, out="file", pre=["out.h5.tmp", "out-1.h5"], pause="off"))  # stale scratch of a vanished file + a later genuine result
+    combos.append(dict(k=4, therm=False, out="file", pre=["out-1.h5", "out-2.h5.tmp"], pause="off"))
     combos.append(dict(k=2, therm=False, out="file", pre=[], pause="no"))
     combos.append(dict(k=2, therm=True, out="file", pre=[], pause="no"))
     combos.append(dict(k=4, therm=False, out="file", pre=[], pause="yes"))
